@@ -74,10 +74,11 @@ type MapV struct {
 }
 
 type ChanV struct {
-	Kind  string // "done", "timer", "generic"
-	Ready *term.Term
-	Buf   []Value
-	Tag   interface{}
+	Kind   string // "done", "timer", "generic", "derived"
+	Ready  *term.Term
+	Buf    []Value
+	Tag    interface{}
+	OnFire func() // runs when a select/receive observes the channel ready
 }
 
 func typeWidth(t types.Type) (w int, signed bool, ok bool) {
